@@ -38,7 +38,7 @@ def build(kind, base):
 
 
 # --------------------------------------------------------------------------- one attempt in a child process
-def attempt(kind, phase, fault, base, crash_at=None, exc_at=None):
+def attempt(kind, phase, fault, base, crash_at=None, exc_at=None, crash_after=None):
     """Request the value of t once under the recorder.  Returns a dict (unless the process is made to die)."""
     chain = build(kind, base)
     t = chain['g:t']
@@ -46,7 +46,7 @@ def attempt(kind, phase, fault, base, crash_at=None, exc_at=None):
     if phase == 'forced':
         t.force()
     final = str(t.data_path)
-    rec = Recorder(str(Path(base)), crash_at=crash_at, exc_at=exc_at)
+    rec = Recorder(str(Path(base)), crash_at=crash_at, exc_at=exc_at, crash_after=crash_after)
     rec.install()
     gen.CTRL['raise'] = None
     gen.CTRL['bad'] = {}
@@ -100,6 +100,16 @@ def later_chain(kind, base):
             r['exc'] = f'{type(e).__name__}: {e}'[:200]
         r['runs'] = [e['slug'] for e in gen.RUNLOG]
         res[rnd] = r
+    # and a forced recomputation in yet another chain must work as well (leftovers of the crash must not block it)
+    chain = build(kind, base)
+    t = chain['g:t']
+    r = {}
+    try:
+        r['value'] = gen.decode(kind, t.force().value)
+        r['exc'] = None
+    except BaseException as e:  # noqa
+        r['exc'] = f'{type(e).__name__}: {e}'[:200]
+    res['forced'] = r
     res['listing'] = sorted(str(p.relative_to(base)) for p in Path(base).rglob('*'))
     return res
 
